@@ -22,6 +22,24 @@ Pairs(a, o) == {i \in 1..Len(a.sections) :
                   /\ a.sections[i].kind = o.sections[i].kind
                   /\ Media(a.sections[i]) /\ Accepted(a.sections[i]) /\ Accepted(o.sections[i])}
 
+\* where the payload types (codecs) of an answered section that the offered section does not list come
+\* from: another offered section of the same kind (pion negotiates codecs per kind), or nowhere in the offer
+OfferedElsewhere(o, i, pt) == \E j \in 1..Len(o.sections) : j # i /\ o.sections[j].kind = o.sections[i].kind
+                                                              /\ pt \in Range(o.sections[j].pts)
+ExtraOrigin(d, o, i) ==
+  LET extra == Range(d.sections[i].pts) \ Range(o.sections[i].pts) IN
+  IF extra = {} THEN "none"
+  ELSE IF \A pt \in extra : OfferedElsewhere(o, i, pt) THEN "other-section" ELSE "not-in-offer"
+CodecElsewhere(o, i, m) == \E j \in 1..Len(o.sections) : j # i /\ o.sections[j].kind = o.sections[i].kind /\
+                              \E k \in 1..Len(o.sections[j].rtpmap) : o.sections[j].rtpmap[k].pt = m.pt /\ o.sections[j].rtpmap[k].name = m.name
+WrongCodecOrigin(d, o, i) ==
+  LET a == d.sections[i]
+      bad == {k \in 1..Len(a.rtpmap) : a.rtpmap[k].pt \in Range(a.pts) /\
+                ~\E j \in 1..Len(o.sections[i].rtpmap) : o.sections[i].rtpmap[j].pt = a.rtpmap[k].pt
+                                                          /\ o.sections[i].rtpmap[j].name = a.rtpmap[k].name} IN
+  IF bad = {} THEN "none"
+  ELSE IF \A k \in bad : CodecElsewhere(o, i, a.rtpmap[k]) THEN "other-section" ELSE "not-in-offer"
+
 Preds(e) ==
   LET desc  == e.ev = "desc" /\ e.ok
       d     == e.d
@@ -77,10 +95,10 @@ Preds(e) ==
   \* ---- C16, one instance per answered media section; the signature carries the abstract class of
   \* the offered section (how many of its codecs are known locally) and the origin of the transceiver
   { PD("C16", "PayloadOffered", TRUE, PayloadOffered(d.sections[i], o.sections[i]),
-       o.sections[i].cls \o "/" \o d.sections[i].age) : i \in (IF ans THEN Pairs(d, o) ELSE {}) }
+       o.sections[i].cls \o "/" \o d.sections[i].age \o "/extra:" \o ExtraOrigin(d, o, i)) : i \in (IF ans THEN Pairs(d, o) ELSE {}) }
   \cup
   { PD("C16", "SameCodec", TRUE, SameCodec(d.sections[i], o.sections[i]),
-       o.sections[i].cls \o "/" \o d.sections[i].age) : i \in (IF ans THEN Pairs(d, o) ELSE {}) }
+       o.sections[i].cls \o "/" \o d.sections[i].age \o "/codec:" \o WrongCodecOrigin(d, o, i)) : i \in (IF ans THEN Pairs(d, o) ELSE {}) }
 
 
 Init == /\ pos = 1 /\ viol = {} /\ cnt = EmptyCount
